@@ -1948,6 +1948,9 @@ double ov_time_tell(OggVorbis_File *vf){
       time_total-=ov_time_total(vf,link);
       if(vf->pcm_offset>=pcm_total)break;
     }
+    /* position unknown (pcm_offset is -1 after a failed seek): no
+       link matched, don't index before the first one */
+    if(link<0)link=0;
   }
 
   return((double)time_total+(double)(vf->pcm_offset-pcm_total)/vf->vi[link].rate);
